@@ -5,6 +5,8 @@ import (
 	"errors"
 	"fmt"
 	"log/slog"
+	"math"
+	"unicode/utf8"
 )
 
 type ByteSize int64
@@ -37,40 +39,51 @@ func isDigit(r rune) bool {
 	return r >= '0' && r <= '9'
 }
 
+// Parses a size in the form <digits><unit>, e.g. "10G" = 10 * 1024^3 bytes.
+// Anything else (no digits, no unit, text after the unit, a size that does not fit) is an error.
 func Parse(s string) (ByteSize, error) {
 	if s == "" {
 		return 0, ErrEmptyString
 	}
 
 	num := int64(0)
-	multiplier := int64(1)
-	foundUnit := false
+	digits := 0
 
-	for _, r := range s {
+	for i, r := range s {
 		if isDigit(r) {
-			if foundUnit {
-				return 0, fmt.Errorf("%w in: %s", ErrCharsAfterUnit, s)
-			}
-
 			digit := int64(r - '0')
+			if num > (math.MaxInt64-digit)/10 {
+				return 0, fmt.Errorf("%w: number too large in: %s", ErrInvalidFormat, s)
+			}
 			num = num*10 + digit
-		} else {
-			if foundUnit {
-				return 0, fmt.Errorf("%w in: %s", ErrMultipleUnits, s)
-			}
-
-			unit, exists := unitRuneMap[r]
-			if !exists {
-				return 0, fmt.Errorf("%w: %c in: %s", ErrUnknownUnit, r, s)
-			}
-
-			multiplier = unit
-			foundUnit = true
-			break
+			digits++
+			continue
 		}
+
+		unit, exists := unitRuneMap[r]
+		if !exists {
+			return 0, fmt.Errorf("%w: %c in: %s", ErrUnknownUnit, r, s)
+		}
+		if digits == 0 {
+			return 0, fmt.Errorf("%w: missing number in: %s", ErrInvalidFormat, s)
+		}
+
+		if rest := s[i+utf8.RuneLen(r):]; rest != "" {
+			if next, _ := utf8.DecodeRuneInString(rest); !isDigit(next) {
+				if _, isUnit := unitRuneMap[next]; isUnit {
+					return 0, fmt.Errorf("%w in: %s", ErrMultipleUnits, s)
+				}
+			}
+			return 0, fmt.Errorf("%w in: %s", ErrCharsAfterUnit, s)
+		}
+
+		if num > math.MaxInt64/unit {
+			return 0, fmt.Errorf("%w: size too large in: %s", ErrInvalidFormat, s)
+		}
+		return ByteSize(num * unit), nil
 	}
 
-	return ByteSize(num * multiplier), nil
+	return 0, fmt.Errorf("%w: missing unit in: %s", ErrInvalidFormat, s)
 }
 
 func (b ByteSize) Convert(unit int64) int64 {
